@@ -280,8 +280,12 @@ def describe_key(owner, key, classmap):
     """descriptor of the class cached in owner._SubTypes[key]; classmap: class -> descriptor of all
     classes known so far (needed for keys that contain classes)."""
     name = OWNER_NAME[owner]
+    if not isinstance(key, tuple) or len(key) != 2:
+        raise Malformed(f"{name} cache key of unexpected shape {key!r}")
     if name in FAM:
         order, width = key
+        if order not in ORDER_NAME or not isinstance(width, int):
+            raise Malformed(f"{name} cache key of unexpected shape {key!r}")
         return (name, ORDER_NAME[order], width)
     if name == "Array":
         elem, count = key
@@ -289,6 +293,8 @@ def describe_key(owner, key, classmap):
             raise Malformed(f"Array cache key with unknown element class {elem!r}")
         return ("Array", classmap[elem], count)
     wrapped, direction = key
+    if direction is not None and direction not in DIR_NAME:
+        raise Malformed(f"{name} cache key of unexpected shape {key!r}")
     if wrapped not in classmap:
         raise Malformed(f"{name} cache key with unknown wrapped class {wrapped!r}")
     return ("Q", name, None if direction is None else DIR_NAME[direction], classmap[wrapped])
@@ -560,7 +566,8 @@ class Explorer:
                 newcls.append((c, d))
             pending = rest
         for o, k, c in pending:
-            self.fact(f"{OWNER_NAME[o]} cache key refers to a class that is in no cache: {k!r}", order)
+            self.fact(f"{OWNER_NAME[o]} cache holds a key that does not describe its parameters "
+                      f"(unexpected shape or a class that is in no cache): {str(k)[:80]}", order)
         self.counts["classes_created"] += len(newcls)
         for c, d in newcls:
             up[c] = self._up_of(c, classmap)
